@@ -7,22 +7,57 @@ from lib.units import SeqUnit, McUnit, TraceUnit, Inconclusive, run_h
 
 
 class QUnit(SeqUnit):
-    """SeqUnit whose specs are deliberately nondeterministic where the property is silent (a hook attached while a
-    Trigger is in flight may or may not be invoked by it, promise callbacks run in any order, ...).  The real code takes
-    one of the allowed branches, so states behind the other branches cannot be visited: the coverage gate is
-    'every stimulus group the implementation can reach was exercised' (the walker's reachable accounting)."""
+    """SeqUnit for the quiescent-point specs of C15.  Two differences from the shared SeqUnit:
+
+    * The specs are deliberately nondeterministic where the property is silent (a hook attached while a Trigger is in
+      flight may or may not be invoked by it; promise callbacks run in any order; unsubscribing during Trigger).  The
+      real code takes one of the allowed branches (or a random one: Go map order), so states behind the other branches
+      cannot be (reliably) visited.  Coverage gate: every stimulus group at a state that is reachable through
+      deterministic edges only must have been exercised; the walker's own accounting of what it could reach is reported.
+    * The thorough tier replays a larger transition system (<M>.lts2.cfg) while <M>.thorough.cfg is only model-checked.
+    """
 
     def run_lts(self, ctx, sd):
-        try:
-            super().run_lts(ctx, sd)
-        except Inconclusive as e:
-            if "stimulus groups" not in str(e):
-                raise
+        edges = os.path.join(ctx.out, self.module + ".edges")
+        kind = "lts2" if ctx.thorough and os.path.exists(os.path.join(sd, self.module + ".lts2.cfg")) else "lts"
+        r, n = flows.lts(sd, self.module, edges, cfgkind=kind, timeout=self.mc_timeout)
+        if not r.ok() or n == 0:
+            save = os.path.join(ctx.out, self.module + ".lts.out")
+            with open(save, "w") as fh:
+                fh.write(r.out)
+            raise Inconclusive("LTS export of %s failed: %s (%s)" % (self.module, r.status, save))
+        walks, depth = self.thorough_walks if ctx.thorough else self.walks
         rep_path = os.path.join(ctx.out, self.module + ".walk.json")
+        p = run_h(ctx, ["lts", self.sut, edges, "-seed", str(ctx.seed), "-walks", str(walks), "-depth", str(depth), "-out", rep_path],
+                  timeout=1500)
+        if p.returncode != 0:
+            raise Inconclusive("walker died on %s: %s" % (self.module, (p.stderr or p.stdout)[-2000:]))
         rep = json.load(open(rep_path))
-        sure = sure_groups(os.path.join(ctx.out, self.module + ".edges"))
-        self.info["lts"]["reachable"] = rep.get("stimulus_groups_reachable", 0)
-        self.info["lts"]["surely_reachable"] = sure
+        sure = sure_groups(edges)
+        self.info["lts"] = {"states": rep["states"], "edges": rep["edges"], "covered": rep["edges_covered"],
+                            "groups": rep["stimulus_groups"], "groups_covered": rep["stimulus_groups_covered"],
+                            "groups_reachable": rep.get("stimulus_groups_reachable", 0), "groups_surely_reachable": sure,
+                            "steps": rep["steps"]}
+        ctx.bump("lts_edges_total", rep["edges"])
+        ctx.bump("lts_edges_covered", rep["edges_covered"])
+        ctx.bump("lts_stimulus_groups_total", rep["stimulus_groups"])
+        ctx.bump("lts_stimulus_groups_covered", rep["stimulus_groups_covered"])
+        ctx.bump("lts_stimulus_groups_reachable_by_this_implementation", rep.get("stimulus_groups_reachable", 0))
+        ctx.bump("replay_steps_on_real_code", rep["steps"])
+        ctx.replayed += rep["resets"]
+        for s in (rep.get("samples") or [])[:1]:
+            ctx.sample({"unit": self.name, "flow": "model->code (LTS tour path)", "path": s})
+        seen = set()
+        for m in rep.get("mismatches") or []:
+            sig = "%s:lts:%s" % (self.sut, m["op"])
+            if "|panic:" in (m.get("class") or ""):
+                sig = "%s:lts:%s" % (self.sut, m["class"].split("|", 1)[1].rstrip())
+            if sig in seen:
+                continue
+            seen.add(sig)
+            what = "%s.%s: real code gave %s, model allows %s (cfg %s, after %d steps)" % (
+                self.sut, m["op"], json.dumps(m["observed"]), json.dumps(m["expected"]), json.dumps(m["cfg"]), len(m["path"]) - 1)
+            ctx.violation(self.name, sig, what, {"kind": "path", "sut": self.sut, "mismatch": m})
         # the tour ends only when no reliably reachable group is left undone; cross-check the count
         if not rep.get("mismatches") and rep["stimulus_groups_covered"] < sure:
             raise Inconclusive("LTS tour of %s covered %d stimulus groups, %d are reachable whatever the implementation chooses" % (
@@ -51,12 +86,24 @@ def sure_groups(edges_path):
 
 def units(ctx):
     return [
-        # quiescent-point LTS replay + recorded histories, one module per subsystem
-        QUnit("events", "Events", traces=(60, 40), thorough_traces=(600, 60), walks=(100, 20), thorough_walks=(1000, 30)),
-        QUnit("events", "Promise", traces=(60, 30), thorough_traces=(600, 40), walks=(100, 12), thorough_walks=(1000, 16)),
-        QUnit("events", "Notifier", traces=(60, 40), thorough_traces=(600, 60), walks=(100, 20), thorough_walks=(1000, 30)),
-        # free-running goroutines on the real objects (3-4 concurrent triggerers with max trigger counts released by a spinning
-        # barrier; Hook/Unhook/Trigger churn; OnTrigger/unsubscribe/Trigger races; Listener/Notify/Deregister/Wait races);
-        # every recorded execution is validated by TLC against the trace spec
+        # ---- pattern 1: API-level specs at quiescent points, replayed on the real objects + recorded histories ----
+        # runtime/event: Hook/Unhook/Trigger/LinkTo histories incl. re-entrant callbacks, Triggers parked in gate hooks while
+        # other calls are made (2 harness threads), event/hook WithMaxTriggerCount, LinkTo re-targeting, pooled hooks
+        QUnit("events", "Events", traces=(60, 40), thorough_traces=(600, 60), walks=(100, 20), thorough_walks=(300, 30), mc_timeout=1200),
+        # runtime/promise Event / Event1: callbacks registered before / during (from inside a callback, and from another
+        # thread while Trigger is parked in a gate callback) / after Trigger; unsubscribe; second Trigger
+        QUnit("events", "Promise", traces=(60, 30), thorough_traces=(600, 40), walks=(100, 12), thorough_walks=(300, 16)),
+        # runtime/valuenotifier: Listener / Notify / Wait (blocking, park detection) / Deregister / cancelled context for
+        # repeated values, several listeners per value
+        QUnit("events", "Notifier", traces=(60, 40), thorough_traces=(600, 60), walks=(100, 20), thorough_walks=(300, 30)),
+        # ---- pattern 2: implementation-level model of Trigger/Unhook (linked list walked without a lock, atomic counters),
+        # all interleavings of 3 triggerers (counting) / 2 triggerers + 1 unhooker; negative controls must be refuted ----
+        McUnit("events", "EventsImpl", "count_quick", name="EventsImpl:count", thorough_cfgkind="count"),
+        McUnit("events", "EventsImpl", "unhook_quick", name="EventsImpl:unhook", thorough_cfgkind="unhook"),
+        McUnit("events", "EventsImpl", "load_then_add", name="ctl-load-then-add", expect="MaxCount"),
+        McUnit("events", "EventsImpl", "no_flag", name="ctl-no-unhooked-flag", expect="NoCallAfterUnhook"),
+        # ---- pattern 3: free-running goroutines on the real objects (3-4 concurrent triggerers with max trigger counts released
+        # by a spinning barrier; Hook/Unhook/Trigger churn; OnTrigger/unsubscribe/Trigger races; Listener/Notify/Deregister/
+        # Wait races); every recorded execution is validated by TLC against the trace spec ----
         TraceUnit("events", "Races", "c15race", args=["-rounds", 4000, "-traces", 40], thorough_args=["-rounds", 60000, "-traces", 600], sut="Races"),
     ]
